@@ -72,6 +72,8 @@ class CenterOfMassOriginModel(AutoSerialize):
     def tensor(self, value: torch.Tensor):
         self._tensor = validate_tensor(value, "tensor", dtype=torch.float).to(self.device)
         self._dataset.array = self._tensor.detach().numpy()
+        # the number of diffraction patterns follows the new array
+        self.num_dps = math.prod(self.dataset.shape[:-2])
 
     @property
     def device(self) -> str:
